@@ -1181,13 +1181,18 @@ func (m *Mint) ProofsStateCheck(Ys []string) ([]nut07.ProofState, error) {
 
 	// get pending proofs from db since they could have changed
 	// from checking the quote state
+	// hold the lock for both reads so that proofs which are being moved from
+	// pending to spent are not seen in between as neither
+	m.proofsMu.Lock()
 	pendingProofs, err = m.db.GetPendingProofs(Ys)
 	if err != nil {
+		m.proofsMu.Unlock()
 		errmsg := fmt.Sprintf("could not get pending proofs from db: %v", err)
 		return nil, cashu.BuildCashuError(errmsg, cashu.DBErrCode)
 	}
 
 	usedProofs, err := m.db.GetProofsUsed(Ys)
+	m.proofsMu.Unlock()
 	if err != nil {
 		errmsg := fmt.Sprintf("could not get used proofs from db: %v", err)
 		return nil, cashu.BuildCashuError(errmsg, cashu.DBErrCode)
